@@ -1,5 +1,7 @@
 import GrolProofs.EvalOps
 import GrolProofs.Props.C15chunks
+import GrolProofs.EnvConst
+import GrolProofs.EvalFrame
 /-!
 # C01 — the syntax-directed reference rules of the language, as theorems about the model
 
@@ -762,5 +764,233 @@ theorem C01.array_append (l r : List Obj) (v : Obj) (st : St)
 example : outcome (evalInfixOp "LT" (.int 2) (.int 3)) {} = .ok (.bool true) := rfl
 example : outcome (evalInfixOp "PLUS" (.str [97]) (.str [98])) {} = .ok (.str [97, 98]) := rfl
 example : outcome (evalInfixOp "PLUS" (.array [.int 1]) (.int 2)) {} = .ok (.array [.int 1, .int 2]) := rfl
+
+/-! ## 8. assignment, then lookup in the same frame -/
+
+/-- the current frame binds `name` to the plain (non-reference) value `v`, and `name` is an ordinary
+identifier: not an extension, not `info` / `self`, not the name of the function the frame is running -/
+structure C01.Binds (st : St) (name : String) (v : Obj) : Prop where
+  frame : ∃ fr, st.frames[st.cur]? = some fr ∧ lookupStore fr.store name = some v
+    ∧ (∀ fn, fr.function = some fn → fn.name ≠ some name)
+  plain : ∀ e n, v ≠ .ref e n
+  notExt : st.extNames.contains name = false
+  notInfo : name ≠ "info"
+  notSelf : name ≠ "self"
+
+/-- `evalIdentifier`: an identifier bound in the current frame evaluates to the bound value; no state change -/
+theorem C01.lookup_bound (name : String) (v : Obj) (st : St) (h : C01.Binds st name v) :
+    run (evalIdentifier name) st = (.ok v, st) := by
+  obtain ⟨⟨fr, hfr, hl, hfn⟩, hp, he, hi, hs⟩ := h
+  have hi' : (name == "info") = false := by simpa using hi
+  have hs' : (name == "self") = false := by simpa using hs
+  unfold evalIdentifier
+  simp only [run_bind, run_get, he, Bool.false_eq_true, if_false]
+  unfold envGet
+  simp only [hi', hs', Bool.false_eq_true, if_false, run_bind, run_getFrame, hfr]
+  rw [hl]
+  cases hf : fr.function with
+  | none => cases v <;> first | exact absurd rfl (hp _ _) | rfl
+  | some fn =>
+    have hne : (fn.name == some name) = false := by simpa using hfn fn hf
+    simp only [hne, Bool.false_eq_true, if_false]
+    cases v <;> first | exact absurd rfl (hp _ _) | rfl
+
+theorem C01.run_valueOf_plain (v : Obj) (hp : ∀ e n, v ≠ .ref e n) (st : St) : run (valueOf v) st = (.ok v, st) := by
+  rw [C01.valueOf_nonref v hp]; rfl
+
+/-- storing `v` under `name` in the current frame establishes the binding -/
+theorem C01.binds_of_store (st : St) (name : String) (v : Obj) (fr fr' : Frame) (cache : List CacheEntry)
+    (hfr : st.frames[st.cur]? = some fr)
+    (hstore : fr'.store = setStore fr.store name v) (hfun : fr'.function = fr.function)
+    (hfn : ∀ fn, fr.function = some fn → fn.name ≠ some name)
+    (hp : ∀ e n, v ≠ .ref e n) (hext : st.extNames.contains name = false)
+    (hi : name ≠ "info") (hs : name ≠ "self") :
+    C01.Binds { st with frames := st.frames.setIfInBounds st.cur fr', cache := cache } name v := by
+  have hlt : st.cur < st.frames.size := by
+    rcases Nat.lt_or_ge st.cur st.frames.size with h | h
+    · exact h
+    · rw [Array.getElem?_eq_none h] at hfr; cases hfr
+  refine ⟨⟨fr', ?_, ?_, ?_⟩, hp, hext, hi, hs⟩
+  · simp [hlt]
+  · rw [hstore]; exact lookupStore_setStore_eq _ _ _
+  · rw [hfun]; exact hfn
+
+/-- the conditions under which an assignment to `name` in the current frame is an ordinary store there -/
+structure C01.Assignable (st : St) (name : String) (fr : Frame) : Prop where
+  frame : st.frames[st.cur]? = some fr
+  notFn : ∀ fn, fr.function = some fn → fn.name ≠ some name
+  notConst : isConstant name = false
+  notExt : st.extNames.contains name = false
+  notInfo : name ≠ "info"
+  notSelf : name ≠ "self"
+
+theorem C01.envCreate_binds (st : St) (name : String) (v : Obj) (fr : Frame) (ha : C01.Assignable st name fr)
+    (hp : ∀ e n, v ≠ .ref e n) :
+    ∃ s1, run (envCreate st.cur name v) st = (.ok v, s1) ∧ C01.Binds s1 name v := by
+  obtain ⟨hfr, hfn, hc, hext, hi, hs⟩ := ha
+  unfold envCreate rootBindsFunc
+  simp only [run_bind, C01.run_valueOf_plain v hp, run_get, run_pure, run_modifyFrame, hfr]
+  exact ⟨_, rfl, C01.binds_of_store st name v fr _ st.cache hfr rfl rfl hfn hp hext hi hs⟩
+
+theorem C01.cur_lt (st : St) (fr : Frame) (hfr : st.frames[st.cur]? = some fr) : st.cur < st.frames.size := by
+  rcases Nat.lt_or_ge st.cur st.frames.size with h | h
+  · exact h
+  · rw [Array.getElem?_eq_none h] at hfr; cases hfr
+
+/-- in the top level frame (no outer frame) an unbound name has nothing to refer to -/
+theorem C01.run_makeRef_global (st : St) (name : String) (fr : Frame) (hfr : st.frames[st.cur]? = some fr)
+    (ho : fr.outer = none) : run (makeRef st.cur name) st = (.ok none, st) := by
+  have hlt := C01.cur_lt st fr hfr
+  obtain ⟨k, hk⟩ : ∃ k, st.frames.size = k + 1 := ⟨st.frames.size - 1, by omega⟩
+  unfold makeRef
+  simp only [run_bind, run_get]
+  rw [hk, makeRef.go]
+  simp only [run_bind, run_getFrame, hfr, ho]
+  rfl
+
+theorem C01.envStoreAt_binds (st : St) (name : String) (v r : Obj) (fr : Frame) (ha : C01.Assignable st name fr)
+    (hp : ∀ e n, v ≠ .ref e n) (hr : lookupStore fr.store name = some r) :
+    ∃ s1, run (envStoreAt st.cur st.cur name v) st = (.ok v, s1) ∧ C01.Binds s1 name v := by
+  obtain ⟨hfr, hfn, hc, hext, hi, hs⟩ := ha
+  have hlt := C01.cur_lt st fr hfr
+  unfold envStoreAt functionChanged rootBindsFunc
+  simp only [run_bind, run_getFrame, hfr, hr]
+  cases hf : isFuncObj r
+  · simp only [Bool.false_eq_true, if_false, run_pure, run_get, run_modifyFrame, hfr]
+    exact ⟨_, rfl, C01.binds_of_store st name v fr _ st.cache hfr rfl rfl hfn hp hext hi hs⟩
+  · rw [if_pos rfl]
+    simp only [run_bind, run_modifyFrame, hfr, run_modify, run_get, run_pure]
+    have h2 : ∀ fr2 : Frame, (st.frames.setIfInBounds st.cur fr2)[st.cur]? = some fr2 := by
+      intro fr2; simp [hlt]
+    simp only [h2]
+    refine ⟨_, rfl, ?_⟩
+    exact C01.binds_of_store
+      { st with frames := st.frames.setIfInBounds st.cur { fr with getMiss := fr.getMiss + 1 }, cache := [] }
+      name v { fr with getMiss := fr.getMiss + 1 } _ [] (h2 _) rfl rfl hfn hp hext hi hs
+
+theorem C01.createOrSet_binds (st : St) (name : String) (v : Obj) (create : Bool) (fr : Frame)
+    (ha : C01.Assignable st name fr) (hp : ∀ e n, v ≠ .ref e n)
+    (hcase : create = true ∨ (lookupStore fr.store name = none ∧ fr.outer = none)
+      ∨ (∃ r, lookupStore fr.store name = some r ∧ ∀ re rn, r ≠ .ref re rn)) :
+    ∃ s1, run (createOrSet st.cur name v create) st = (.ok v, s1) ∧ C01.Binds s1 name v := by
+  have ha' := ha
+  obtain ⟨hfr, hfn, hc, hext, hi, hs⟩ := ha
+  unfold createOrSet
+  simp only [hc, Bool.false_eq_true, if_false, run_bind, run_get, hext, pure_bind]
+  unfold setNoChecks
+  cases create with
+  | true =>
+    rw [if_pos rfl]
+    exact C01.envCreate_binds st name v fr ha' hp
+  | false =>
+    simp only [Bool.false_eq_true, if_false, run_bind, run_getFrame, hfr]
+    rcases hcase with h | ⟨h1, h2⟩ | ⟨r, h1, h2⟩
+    · cases h
+    · rw [h1]
+      simp only [run_bind, C01.run_makeRef_global st name fr hfr h2]
+      exact C01.envCreate_binds st name v fr ha' hp
+    · rw [h1]
+      unfold envUpdate
+      have ht : updTarget st.cur name r = (st.cur, name) := by
+        cases r <;> first | rfl | exact absurd rfl (h2 _ _)
+      simp only [ht, pure_bind]
+      exact C01.envStoreAt_binds st name v r fr ha' hp h1
+
+/-- the step counter is no part of a binding -/
+theorem C01.Binds.bump {st : St} {name : String} {v : Obj} (h : C01.Binds st name v) :
+    C01.Binds (C15.bump st) name v := ⟨h.1, h.2, h.3, h.4, h.5⟩
+
+/-- an identifier node, bound in the current frame: its value; the only state change is the step count -/
+theorem C01.ident_bound (g : Nat) (name : String) (v : Obj) (st : St) (hd : st.cfg.deadlineAfter = none)
+    (h : C01.Binds st name v) :
+    outcome (evalI (g + 1) (.ident name)) st = .ok v ∧ stateAfter (evalI (g + 1) (.ident name)) st = C15.bump st := by
+  have e : evalI (g + 1) (.ident name) = C15.enter (evalIdentifier name) := by evalI_step
+  rw [e, C15.outcome_enter _ _ hd, C15.stateAfter_enter _ _ hd, outcome_eq_run, stateAfter_eq_run,
+    C01.lookup_bound name v _ h.bump]
+  exact ⟨rfl, rfl⟩
+
+/-- an unbound identifier in the top level frame is the error value "identifier not found" -/
+theorem C01.ident_unbound (g : Nat) (name : String) (st : St) (fr : Frame) (hd : st.cfg.deadlineAfter = none)
+    (ha : C01.Assignable st name fr) (hl : lookupStore fr.store name = none) (ho : fr.outer = none) :
+    outcome (evalI (g + 1) (.ident name)) st = .ok (err ("identifier not found: " ++ name)) := by
+  obtain ⟨hfr, hfn, hc, hext, hi, hs⟩ := ha
+  have hi' : (name == "info") = false := by simpa using hi
+  have hs' : (name == "self") = false := by simpa using hs
+  have e : evalI (g + 1) (.ident name) = C15.enter (evalIdentifier name) := by evalI_step
+  have hfr' : (C15.bump st).frames[(C15.bump st).cur]? = some fr := hfr
+  have hext' : (C15.bump st).extNames.contains name = false := hext
+  rw [e, C15.outcome_enter _ _ hd, outcome_eq_run]
+  unfold evalIdentifier
+  simp only [run_bind, run_get, hext', Bool.false_eq_true, if_false]
+  unfold envGet
+  simp only [hi', hs', Bool.false_eq_true, if_false, run_bind, run_getFrame, hfr', hl, ho]
+  cases hf : fr.function with
+  | none => rfl
+  | some fn =>
+    have hne : (fn.name == some name) = false := by simpa using hfn fn hf
+    simp only [hne, Bool.false_eq_true, if_false]
+    rfl
+
+theorem C01.sameRun_curEnv {α : Type} (g : Nat → M α) (s : St) : SameRun (curEnv >>= g) s (g s.cur) s :=
+  ⟨rfl, rfl⟩
+
+theorem C01.evalI_assign (f : Nat) (op : String) (l r : Node) (hop : (op == "ASSIGN" || op == "DEFINE") = true) :
+    evalI (f + 1) (.inf op l r) = C15.enter (do
+      let right ← eval f r
+      evalAssignment f right op l) := by
+  rw [evalI]; unfold C15.enter; congr 1; funext st; congr 1; funext _
+  cases st.cfg.deadlineAfter <;> simp only [hop] <;> rfl
+
+/-- `evalAssignment` to an identifier: an error value on the right is the result, nothing is stored;
+otherwise `CreateOrSet` in the current environment (`:=` creates) -/
+theorem C01.evalAssignment_ident (f : Nat) (right : Obj) (op name : String) :
+    evalAssignment (f + 1) right op (.ident name) =
+      if right.isError then pure right
+      else (do let e ← curEnv; createOrSet e name right (op == "DEFINE")) := by
+  rw [evalAssignment]
+  rfl
+
+/-- `x = e` / `x := e` then `x`, in one frame: the assignment evaluates `e` (first, through `Eval`), stores
+its value `v` in the current frame and has the value `v`; looking `x` up afterwards yields `v`.
+Stated for an ordinary name (`C01.Assignable`: not all-caps constant, not an extension, `info`, `self` or the
+running function's own name) and for the three cases in which the store goes to the current frame: `:=`; the
+name is unbound and the frame is the top level one; the name is bound there to a non-reference. -/
+theorem C01.assign_then_lookup (f g : Nat) (op name : String) (e : Node) (st : St) (v : Obj) (fr : Frame)
+    (hd : st.cfg.deadlineAfter = none) (hop : op = "ASSIGN" ∨ op = "DEFINE")
+    (he : outcome (eval (f + 1) e) (C15.bump st) = .ok v) (hv : v.isError = false) (hp : ∀ en n, v ≠ .ref en n)
+    (ha : C01.Assignable (stateAfter (eval (f + 1) e) (C15.bump st)) name fr)
+    (hcase : op = "DEFINE" ∨ (lookupStore fr.store name = none ∧ fr.outer = none)
+      ∨ (∃ r, lookupStore fr.store name = some r ∧ ∀ re rn, r ≠ .ref re rn)) :
+    outcome (evalI (f + 2) (.inf op (.ident name) e)) st = .ok v
+    ∧ outcome (evalI (g + 1) (.ident name)) (stateAfter (evalI (f + 2) (.inf op (.ident name) e)) st) = .ok v := by
+  have hop' : (op == "ASSIGN" || op == "DEFINE") = true := by
+    rcases hop with h | h <;> subst h <;> rfl
+  have hcase' : (op == "DEFINE") = true ∨ (lookupStore fr.store name = none ∧ fr.outer = none)
+      ∨ (∃ r, lookupStore fr.store name = some r ∧ ∀ re rn, r ≠ .ref re rn) := by
+    rcases hcase with h | h
+    · left; subst h; rfl
+    · right; exact h
+  obtain ⟨s1, hrun, hb⟩ := C01.createOrSet_binds _ name v (op == "DEFINE") fr ha hp hcase'
+  have hcfg := (((allGood (f + 2)).evalI (.inf op (.ident name) e)).h st).1.cfg
+  have key : SameRun (evalI (f + 2) (.inf op (.ident name) e)) st
+      (createOrSet (stateAfter (eval (f + 1) e) (C15.bump st)).cur name v (op == "DEFINE"))
+      (stateAfter (eval (f + 1) e) (C15.bump st)) := by
+    rw [C01.evalI_assign _ _ _ _ hop']
+    refine (C01.sameRun_enter _ st hd).trans ((C01.sameRun_bind_ok _ _ _ _ he).trans ?_)
+    rw [C01.evalAssignment_ident]
+    simp only [hv, Bool.false_eq_true, if_false]
+    exact C01.sameRun_curEnv _ _
+  have h1 : outcome (createOrSet (stateAfter (eval (f + 1) e) (C15.bump st)).cur name v (op == "DEFINE"))
+      (stateAfter (eval (f + 1) e) (C15.bump st)) = .ok v := by rw [outcome_eq_run, hrun]
+  have h2 : stateAfter (createOrSet (stateAfter (eval (f + 1) e) (C15.bump st)).cur name v (op == "DEFINE"))
+      (stateAfter (eval (f + 1) e) (C15.bump st)) = s1 := by rw [stateAfter_eq_run, hrun]
+  refine ⟨key.1.trans h1, ?_⟩
+  have hs2 : stateAfter (evalI (f + 2) (.inf op (.ident name) e)) st = s1 := key.2.trans h2
+  rw [hs2] at hcfg ⊢
+  exact (C01.ident_bound g name v s1 (by rw [hcfg]; exact hd) hb).1
+
+/-! non-vacuity: `x = 5` then `x` in the initial top level state -/
+example : outcome (evalI 4 (.inf "ASSIGN" (.ident "x") (.int 5))) (initState {}) = .ok (.int 5) := rfl
+example : outcome (evalI 2 (.ident "x")) (stateAfter (evalI 4 (.inf "ASSIGN" (.ident "x") (.int 5))) (initState {})) = .ok (.int 5) := rfl
 
 end Grol.E
